@@ -582,6 +582,12 @@ class Analysis:
         site = f"{fi.short}:{c.lineno}:{c.col_offset}"
         f = c.func
         fname = norm(f)
+        # the standard-library callables with a meaning here, under whatever local name they were imported
+        imps = getattr(fi.mod, "imports", {})
+        if isinstance(f, ast.Name) and f.id in imps and imps[f.id][1] and imps[f.id][0] in ("copy", "json") and not (ctx.fi.mod.funcs.get(f.id)):
+            fname = f"{imps[f.id][0]}.{imps[f.id][1]}"
+        elif isinstance(f, ast.Attribute) and isinstance(f.value, ast.Name) and f.value.id in imps and imps[f.value.id][1] is None and imps[f.value.id][0] in ("copy", "json"):
+            fname = f"{imps[f.value.id][0]}.{f.attr}"
         args = [self.eval(a, env, ctx) for a in c.args]
         kwargs = {k.arg: self.eval(k.value, env, ctx) for k in c.keywords}
         starkw = [self.eval(k.value, env, ctx) for k in c.keywords if k.arg is None]
